@@ -461,6 +461,8 @@ func rulesC01(e *Engine, r *Report) {
 	// ---------------------------------------------------------------- R01.12
 	r.Rule("R01.12", "a failed verdict is not papered over by the log: the cache refill from the receive log inserts a record only when the cache holds nothing under the very key it inserts at (<stage root>/<name>) - a live entry (failed, received, validated) of a newer version of that name is never replaced by the `logged` record of an older delivery (else the sender is told `passed` for content that failed validation) - shared with R05.6")
 	e.checkRefillKeepsLive(r, "R01.12")
+	// ---------------------------------------------------------------- R01.13
+	e.shareRule(r, "C06", "R06.3", "R01.13", "a delivered file is on record with its hash: the deliverer writes the receive-log record BEFORE it moves the validated file into the final directory (a crash after the move and before the record would leave a delivered file the receiver knows nothing about: the sender is told `not received` and the file is delivered a second time), and the move itself never parks the file under an intermediate name")
 }
 
 func shorten(s string) string {
